@@ -130,7 +130,8 @@ func newDiskDb(path string, nuke bool) *leveldb.DB {
 	if nuke {
 		// Move the old data out of the way atomically first, so that an interrupted
 		// removal never leaves a half-deleted database behind at path.
-		trash := path + ".deleted"
+		// ("~" cannot occur in a table id, so this is never another table's directory.)
+		trash := path + "~deleted"
 		_ = fsRemoveAll(trash)
 		if err := fsRename(path, trash); err == nil {
 			_ = fsRemoveAll(trash)
